@@ -94,6 +94,12 @@ CHECKS = {
     text="Search, not proof: 20k/1.5M generated SCTE-35 signals (every command and descriptor class the library models, field values over their full bit widths) and 0.7k/30k event-delivery sessions (vod: all segments; live: up to 40 consecutive segments ending at the newest edge, crossing loop boundaries) per tier.",
     note=SHIMS + ". vt/scte.py is self-tested against the binary examples of tests/test_scte35.py and the SCTE 35 sample section. Event indices beyond 32 bits are outside the domain (emsg id and splice_event_id are 32-bit fields).",
     design_ref="DESIGN.md section 4, C14"),
+ "C04": dict(
+    engine="enumeration + hypothesis",
+    technique="round-trip and differential: box trees written by an independent writer (vt/isowrite.py, struct only) from generated field values; parse+encode in mode r/rw x lazy/eager, lazy-touched, self-assigned, toJSON/fromJSON, eager-vs-lazy field equality; generated edit scripts with an independent strict walker (sizes, nesting, assigned values) after every step",
+    text="Search, not proof. Every fixture file, segment window and context-free nested box is enumerated (220 cases); 4k/160k generated trees over all 54 registered box classes (208 distinct class/version/flags tuples per quick run, boundary field values, 64-bit largesize and size==0 header forms, multi-run and multi-track fragments) and 2.8k/100k edit sequences per tier.",
+    note="vt/isowrite.py shares no code with dashlive and is the reference for what a well-formed box is. One open known finding (C04-K1: 64-bit creation times beyond year 9999 cannot be represented).",
+    design_ref="DESIGN.md section 4, C04"),
  "C15": dict(
     engine="enumeration + hypothesis (token sequences)",
     technique="exhaustive (operation x role x authentication) matrix and route sweep against a reference authorisation table written from the property statement, state compared through raw SQL snapshots; model-based CSRF token sequences (issue / use / reuse / cross-service / cross-session / tamper / expire under the harness clock)",
